@@ -62,19 +62,28 @@ impl Iterator for Scanlines {
     type Item = Scanline;
 
     fn next(&mut self) -> Option<Self::Item> {
-        let y = self.rows.next()?;
+        // Rows without any pixel inside the ellipse (top and bottom rows of thin ellipses) are
+        // skipped instead of ending the iteration.
+        loop {
+            let y = self.rows.next()?;
 
-        let scaled_y = y * 2 - self.center_2x.y;
+            let scaled_y = y * 2 - self.center_2x.y;
 
-        self.columns
-            .clone()
-            // Find the first pixel that is inside the ellipse.
-            .find(|x| {
-                self.ellipse_contains
-                    .contains(Point::new(*x * 2 - self.center_2x.x, scaled_y))
-            })
-            // Shorten the right side of the scanline by the same amount as the left side.
-            .map(|x| Scanline::new(y, x..self.columns.end - (x - self.columns.start)))
+            let scanline = self
+                .columns
+                .clone()
+                // Find the first pixel that is inside the ellipse.
+                .find(|x| {
+                    self.ellipse_contains
+                        .contains(Point::new(*x * 2 - self.center_2x.x, scaled_y))
+                })
+                // Shorten the right side of the scanline by the same amount as the left side.
+                .map(|x| Scanline::new(y, x..self.columns.end - (x - self.columns.start)));
+
+            if scanline.is_some() {
+                return scanline;
+            }
+        }
     }
 }
 
